@@ -198,6 +198,7 @@ package derive
 
 //@ inv pkg: forall a int, b int :: 0 <= a && a < b && b < len(self.plugins) ==> !before(self.plugins[b], self.plugins[a])
 //@ inv pkg: self.printer != nil
+//@ inv pkg: forall n string :: n in self.generators ==> self.generators[n] != nil
 //@ inv pkg: self.generators != nil && forall i int :: 0 <= i && i < len(self.plugins) ==> self.plugins[i] != nil && derive.Plugin.Name(self.plugins[i]) in self.generators && self.generators[derive.Plugin.Name(self.plugins[i])] != nil
 
 //@ func (pkg *pkg) Add(call *call) (r string, err error)
@@ -352,7 +353,7 @@ package derive
 //@ ensures [user-files-intact] (!autoname && !dedup) ==> forall q string :: ((q in fs) <==> (q in old(fs))) && fs[q] == old(fs)[q]
 //@ ensures [derived-file-untouched] forall q string :: isDerivedFile(q) ==> ((q in fs) <==> (q in old(fs))) && fs[q] == old(fs)[q]
 //@ ensures [no-file-created-or-deleted] forall q string :: (q in fs) <==> (q in old(fs))
-//@ ensures [pkg-invariant] err == nil ==> r != nil && r.printer != nil && r.generators != nil
+//@ ensures [pkg-invariant] err == nil ==> r != nil && r.printer != nil && r.generators != nil && forall n string :: n in r.generators ==> r.generators[n] != nil
 //@ ensures [pkg-plugins] err == nil ==> r.plugins == plugins
 //@ ensures [pkg-generators] err == nil ==> forall i int :: 0 <= i && i < len(plugins) ==> derive.Plugin.Name(plugins[i]) in r.generators && r.generators[derive.Plugin.Name(plugins[i])] != nil
 //@ assert-at-call derive.pkg.Add: forall i int, n string :: 0 <= i && i < len(fileInfos) && n in fileInfos[i].funcNames ==> n in reserved
@@ -360,7 +361,7 @@ package derive
 //@ loop 1: invariant reserved != nil && forall i int, n string :: 0 <= i && i < $i && n in fileInfos[i].funcNames ==> n in reserved
 //@ loop 2: invariant typesmaps != nil && deps != nil
 //@ loop 2: invariant forall i int :: 0 <= i && i < $i ==> derive.Plugin.Name(plugins[i]) in typesmaps && typesmaps[derive.Plugin.Name(plugins[i])] != nil && (mayRename(typesmaps[derive.Plugin.Name(plugins[i])]) <==> (autoname || dedup))
-//@ loop 3: invariant generators != nil
+//@ loop 3: invariant generators != nil && forall n string :: n in generators ==> generators[n] != nil
 //@ loop 3: invariant forall i int :: 0 <= i && i < $i ==> derive.Plugin.Name(plugins[i]) in generators && generators[derive.Plugin.Name(plugins[i])] != nil && (mayRename(generators[derive.Plugin.Name(plugins[i])]) <==> (autoname || dedup))
 //@ loop 4: invariant pkg != nil && pkg.plugins == plugins && pkg.generators == generators && pkg.printer == printer
 //@ loop 4: invariant (!autoname && !dedup) ==> forall q string :: ((q in fs) <==> (q in old(fs))) && fs[q] == old(fs)[q]
@@ -376,7 +377,6 @@ package derive
 // Writing generated code touches only generator-internal state (printer, type tables).
 //@ func (pkg *pkg) Generate() (generated bool, err error)
 //@ assigns any derive.printer.hasContent, any derive.printer.indent, any derive.printer.w, any derive.printer.imports, any derive.typesMap.generated, any derive.typesMap.funcToTyps, any derive.typesMap.typss
-//@ requires [generators-non-nil] pkg.generators != nil && forall n string :: n in pkg.generators ==> pkg.generators[n] != nil
 // C01: on success no plugin has a registered type list left to generate (every
 // requested helper was handed to its plugin's Generate); termination is not shown.
 //@ ensures [work-list-empty] err == nil ==> derive.pkg.Done(pkg)
